@@ -71,6 +71,9 @@ def run_variant(args):
         shutil.rmtree(tmp, ignore_errors=True)
 
 
+LAST = {}
+
+
 def run(prop, seed, verbose=False, only=None):
     """self-test for one property (or all if prop is None); returns list of failure texts"""
     from .props import PROPS
@@ -86,6 +89,7 @@ def run(prop, seed, verbose=False, only=None):
         if not ps:
             continue
         jobs.append((v, ps))
+    LAST.clear()
     if not jobs:
         return []
     import random
@@ -116,6 +120,10 @@ def run(prop, seed, verbose=False, only=None):
             fails.append('%s: neutral variant raised %s' % (vid, sorted(fired)))
         elif verbose:
             print('  ok       %s -> %s' % (vid, sorted(fired) or 'silent'))
+    LAST.update({'variants': len(jobs), 'skipped': skipped, 'failures': len(fails),
+                 'firing': sum(1 for v, _ in jobs if v['expect']),
+                 'neutral': sum(1 for v, _ in jobs if not v['expect']),
+                 'ids': sorted(v['id'] for v, _ in jobs)})
     print('self-test%s: %d variant(s), %d skipped (anchor absent), %d failure(s)'
           % (' ' + prop if prop else '', len(jobs), skipped, len(fails)))
     for f in fails:
